@@ -199,8 +199,29 @@ def writer_maps(r, m):
     own = r.choice(nss)
     maps = [{r.choice(["", "", "@empty"]): own},
             r.choice([{"": r.choice(other)}, {"p": own}, {"": own, "p": r.choice(nss)}, {"p": r.choice(other), "": own}]),
-            r.choice(NS_MAPS + RAW_MAPS)]
+            r.choice(NS_MAPS + RAW_MAPS) if r.random() < 0.5 else raw_map(r, nss, other)]
     return maps
+
+
+def raw_map(r, nss, other):
+    """a user map as a caller may hand it over, i.e. BEFORE namespaces.clean_prefixes: 1-4 entries in random INSERTION ORDER
+    (clean_prefixes / XMLGenerator's uri->prefix context are order sensitive) over both spellings of the default prefix
+    (None and ''), named prefixes incl. the generated-looking ns0/ns1, with uris mostly from the model, so that the same uri
+    is often bound to the default prefix and to a named one, or twice; rarely an empty uri (dropped by the cleaning)"""
+    keys = ["", "@empty", "p", "q", "ns0", "ns1"]
+    r.shuffle(keys)
+    out = {}
+    for k in keys[:r.choice([1, 2, 2, 3, 3, 4])]:
+        x = r.random()
+        out[k] = r.choice(nss) if x < 0.75 else (r.choice(other) if x < 0.95 else "")
+    return out
+
+
+def ordered_maps(keys, uris, maxlen):
+    """every map of 1..maxlen entries over `keys` x `uris` in every insertion order"""
+    import itertools
+    return [dict(zip(ks, us)) for n in range(1, maxlen + 1) for ks in itertools.permutations(keys, n)
+            for us in itertools.product(uris, repeat=n)]
 
 
 # qualified attributes in the namespace of their element (attributeFormDefault="qualified") and in another one, next to
@@ -243,6 +264,16 @@ def qattr_job(ck):
              for c in ({}, {"xml_declaration": False, "indent": "  "})]
     cases += [{"i": i, "op": "roundtrip", "writer": w, "handler": "lxml", "ns_map": nm, "strict": True}
               for i in range(len(insts)) for nm in maps for w in ("native", "lxml")]
+    # user maps BEFORE cleaning, exhaustively for small sizes: both spellings of the default prefix and two named prefixes x
+    # the two namespaces of the model, every insertion order (the default namespace also bound to a prefix that comes
+    # first / last, None and '' together, a uri bound twice): backends agree, and the native writer's text reads back
+    r = ck.rng
+    for nm in ordered_maps(["", "@empty", "t", "o"], ["urn:t", "urn:o"], 3):
+        i = r.randrange(2)
+        cases.append({"i": i, "op": "writers", "config": r.choice(({}, {"xml_declaration": False, "indent": "  "})), "ns_map": nm,
+                      "ns_order": list(nm)})
+        cases.append({"i": i, "op": "roundtrip", "writer": r.choice(("native", "native", "lxml")), "handler": r.choice(("native", "lxml")),
+                      "ns_map": nm, "ns_order": list(nm), "strict": True})
     return {"src": QATTR_SRC, "name": f"qattr_{ck.seed}", "root": "Root", "instances": insts, "cases": cases}
 
 
